@@ -16,6 +16,7 @@ class Outcome:
 
   def __init__(self):
     self.model_bytes = None
+    self.model_arg = None
     self.qt = None
     self.accepted = []      # rule specs accepted by the API
     self.refused = []       # (rule spec, exception)
@@ -38,6 +39,7 @@ def setup_quantizer(model_bytes, recipe, prior=None):
   prior: name of a shipped calibration-free recipe that is loaded and quantized
   with on the same Quantizer first (an earlier use of the object).
   """
+  # the documented argument type is a (mutable) bytearray
   qt = quantizer_mod.Quantizer(model_bytes)
   accepted, refused = [], []
   if prior:
@@ -70,7 +72,11 @@ def run(case, stop_after=None):
   out = Outcome()
   mspec = case['model']
   out.model_bytes = G.build(mspec)
-  qt, out.accepted, out.refused = setup_quantizer(out.model_bytes, case['recipe'], case.get('prior'))
+  if case.get('external_input'):
+    out.model_bytes = G.to_external(out.model_bytes)
+  # caller-owned, mutable copy handed to the Quantizer (C02/C14 compare it afterwards)
+  out.model_arg = bytearray(out.model_bytes)
+  qt, out.accepted, out.refused = setup_quantizer(out.model_arg, case['recipe'], case.get('prior'))
   out.qt = qt
   out.recipe = qt.get_quantization_recipe()
   if not out.recipe:
